@@ -13,6 +13,10 @@
              | AnyInteresting
    6 UNINT : the keys of UninterestingTags mapped to true at run time
              (judgement 1: the same set as the one re-read from tag.go by the translator)
+   7 WSEQ  : n steps, each: way nodes | tags | observed.  All steps are calls of Polygon() on the
+             SAME Way value, which the harness edits in place between the calls (same number of
+             nodes and tags, or not).  Every step is judged like a WAY case: the answer of a call
+             depends on the nodes and tags the way has AT THAT CALL, not on earlier calls.
    3 TABLE : the three condition names at run time (all, whitelist, blacklist)
              | run-time table after init: list of (key, condition, list of values)
              | the harness's own copy of the published table: list of (key, 0 all/1 white/2 black, values)
@@ -80,6 +84,21 @@ Definition check_way : P (list Z) :=
     (obs <? 2) &&
     (if nodupb (keys ts) then obs =? b2z (spec_polygonb (map wid nodes) (lookup ts)) else true) in
   ret (code_if j1 1 ++ code_if j2 2)%list.
+
+(* ---- WSEQ: several calls on one Way, edited in place in between ---- *)
+Definition pstep : P (list waynode * tags * Z) :=
+  nodes <- plist pwaynode ;; ts <- ptags ;; obs <- pint ;; ret (nodes, ts, obs).
+
+Definition step_judgements (st : list waynode * tags * Z) : bool * bool :=
+  let '(nodes, ts, obs) := st in
+  (obs_code (way_polygon_wn RT nodes ts) =? obs,
+   (obs <? 2) &&
+   (if nodupb (keys ts) then obs =? b2z (spec_polygonb (map wid nodes) (lookup ts)) else true)).
+
+Definition check_wseq : P (list Z) :=
+  steps <- plist pstep ;;
+  let js := map step_judgements steps in
+  ret (code_if (forallb fst js) 1 ++ code_if (forallb snd js) 2)%list.
 
 (* ---- REL ---- *)
 Definition check_rel : P (list Z) :=
@@ -162,6 +181,7 @@ Definition check_case (t : toks) : list Z :=
                else if tag =? 8 then check_find
                else if tag =? 10 then check_tagsops
                else if tag =? 12 then check_unint
+               else if tag =? 14 then check_wseq
                else pfail in
       match parse_all p rest with Some codes => codes | None => [0] end
   | [] => [0]
